@@ -598,3 +598,28 @@ def containers_import_their_members(ctx):
     its value and refuses the base64 text of a blob member): what the client caches is then not the import of the message"""
     from sa.rules import c02
     c02.container_delegation(ctx)
+
+
+@rule('C12.R10', min_instances=1)
+def forced_read_looks_at_the_cache_after_the_reply(ctx):
+    """SecopClient.readParameter: the receive thread writes the cache entry WHILE the request is waiting for its reply; what
+    readParameter compares the error with (did the receive thread already do the error update?) and what it returns is the
+    entry as it is AFTER the request - every read of self.cache in it is dominated by the request call.  An entry read before
+    the request is the stale one: the error update is done a second time (every callback fires twice for one message, the
+    entry carries the local time instead of the message's)"""
+    m = ctx.m
+    f = m.method(C, 'readParameter', inherited=False)
+    ctx.analysed(f)
+    cfg = CFG(f.node, m, f.module)
+    req = [i for c in calls_in(f.node) if call_attr(c) == 'request' and dotted(c.func.value) == 'self' for i in cfg.node_of(c)]
+    if not req:
+        raise AnchorMissing('self.request(...) not found in readParameter')
+    reads = [n for n in body_walk(f.node) if (isinstance(n, ast.Subscript) and isinstance(n.ctx, ast.Load) and src(n.value) == 'self.cache') or
+             (isinstance(n, ast.Call) and call_attr(n) == 'get' and src(n.func.value) == 'self.cache')]
+    if not reads:
+        raise AnchorMissing('no read of self.cache in readParameter')
+    for r in reads:
+        ok = all(cfg.dominates(req, i) for i in cfg.node_of(r))
+        ctx.check(ok, f'{f.qualname}:the cache is read after the request', r, 'dominated by self.request(...)',
+                  f'`{src(r)}` can be evaluated before the request was made: the entry is the one from BEFORE the reply - an error reply is compared with the stale '
+                  'entry, taken for "not yet announced" and announced a second time (callbacks twice per message, local time stamp in the cache)', f)
